@@ -239,12 +239,13 @@ def analyse(obs: Obs, prog):
             obs.add({"C07"}, "WEIGHT-REGEN", inst + "/weight", form == {frozenset([mk_proj(RWn, 0)]): 1, frozenset([OLD]): -1}, derived=show_lin(form), expected="new score - old score", where=w)
             obs.add({"C07", "C06"}, "BWD-OLDVALUES", inst + "/bwd", is_update(bwd, lambda c: is_call(c, "choice") and c[2] == (retval_of(P("trace")),)), derived=bwd, expected="Update(choice(old value))", where=w)
             obs.add({"C08"}, "TAG-CONSERVATIVE", inst + "/retdiff", is_tag(rd, "unknown_change", mk_proj(RWn, 1)), derived=rd, expected="unknown_change(new value)", where=w)
-        elif nochange:
+        elif nochange or tr == P("trace"):
+            # an arm that returns the INPUT trace is the identity shortcut whatever its guard looks like; the guard is judged below
             seen.add("shortcut")
             inst = "Distribution.edit_regenerate/unselected-nochange"
             guard = [c for c, pol in conds if is_call(c, "static_check_no_change") and pol]
             whole = guard and guard[0][2] == (P("argdiffs"),)
-            obs.add({"C07", "C08"}, "TAG-SHORTCUT-GUARD", inst, tr == P("trace") and whole, construct="identity shortcut guard",
+            obs.add({"C07", "C08", "C32"}, "TAG-SHORTCUT-GUARD", inst, tr == P("trace") and whole, construct="identity shortcut guard",
                     derived=f"returns {show(tr)[:60]} under static_check_no_change({show(guard[0][2][0]) if guard else '?'})", expected="the input trace, only when ALL argdiffs are NoChange", where=w)
             obs.add({"C07"}, "WEIGHT-REGEN", inst + "/weight", is_zero(wt), derived=wt, expected="0", where=w)
             obs.add({"C08", "C07"}, "TAG-NOCHANGE-PROV", inst + "/retdiff", is_tag(rd, "no_change", retval_of(P("trace"))), derived=rd, expected="no_change(previous retval)", where=w)
